@@ -143,14 +143,40 @@ class ReaderModel(object):
                             tags = tags - rt
             return tags
 
+        def tag_arg(a):
+            """tag names an argument stands for: a constant, or a loop variable ranging over a literal table of tag names"""
+            ts = self.tags_of(a)
+            if ts is None and isinstance(a, ast.Name):
+                got = set()
+                for lp in P.walk_no_nested(f):
+                    if isinstance(lp, (ast.For, ast.comprehension)) and isinstance(lp.iter, (ast.Tuple, ast.List)) and any(x is a for x in ast.walk(lp) if isinstance(lp, ast.For)):
+                        tg = lp.target
+                        for el in lp.iter.elts:
+                            comp = None
+                            if isinstance(tg, ast.Name) and tg.id == a.id:
+                                comp = el
+                            elif isinstance(tg, ast.Tuple) and isinstance(el, ast.Tuple) and len(el.elts) == len(tg.elts):
+                                for t_, c_ in zip(tg.elts, el.elts):
+                                    if isinstance(t_, ast.Name) and t_.id == a.id:
+                                        comp = c_
+                            cts = self.tags_of(comp) if comp is not None else None
+                            if cts is None:
+                                got = None
+                                break
+                            got |= cts
+                        if got:
+                            return got
+                return None
+            return ts
+
         def children_expr(e):
             """if e evaluates to child element(s) of some variable: (parent var, tags or {ANY}, many?)"""
             if isinstance(e, ast.Call):
                 nm = P.call_name(e)
                 if isinstance(e.func, ast.Attribute) and e.func.attr in ('find', 'findall', 'iter', 'iterfind') and isinstance(e.func.value, ast.Name) and e.args:
-                    return e.func.value.id, self.tags_of(e.args[0]) or {ANY}, e.func.attr != 'find'
+                    return e.func.value.id, tag_arg(e.args[0]) or {ANY}, e.func.attr != 'find'
                 if nm in ('self._find_children', 'self._find_first_child') and len(e.args) == 2 and isinstance(e.args[0], ast.Name):
-                    return e.args[0].id, self.tags_of(e.args[1]) or {ANY}, nm.endswith('children')
+                    return e.args[0].id, tag_arg(e.args[1]) or {ANY}, nm.endswith('children')
                 if nm in ('enumerate', 'list', 'sorted', 'reversed') and e.args:
                     return children_expr(e.args[0])
             if isinstance(e, ast.Name) and e.id in env and e.id not in local_lists:
